@@ -20,6 +20,10 @@ def table(tier):
             prevkind = 2 if okind == 2 else 1
             prev = [{"kind": prevkind, "ns": ons, "name": 9, "uid": 90, "remotes": [[19, 190]]},
                     {"kind": prevkind, "ns": ons, "name": 8, "uid": 80, "remotes": []}]
+            if ctrl in ("prevremote", "prev") and not cache:
+                # the same rows with the previous revision that has no remote phases listed first
+                # (uncached rows only: the read path is irrelevant to the order of the previous-revision list)
+                prev = prev[::-1]
             refs = []
             if ctrl == "foreign":
                 refs.append([9, 50, 500, 1])
@@ -54,6 +58,11 @@ def random_phases(seed, n):
         owner = pl.mk_owner(okind, ons, 10, 100, orev, paused=r.random() < 0.05, pkg=r.choice([0, 0, 1, 2]))
         prevkind = 2 if okind in (2, 4) else 1
         prev = [{"kind": prevkind, "ns": ons, "name": 9, "uid": 90, "remotes": r.choice([[], [[19, 190]]])}] if r.random() < 0.8 else []
+        if prev and r.random() < 0.35:
+            # a second previous revision without remote phases (all phases in-process, or already garbage collected: empty identity)
+            other = r.choice([{"kind": prevkind, "ns": ons, "name": 8, "uid": 80, "remotes": []},
+                              {"kind": prevkind, "ns": 0, "name": 0, "uid": 0, "remotes": []}])
+            prev = [other] + prev if r.random() < 0.6 else prev + [other]
         nobj = r.choice([1, 2, 2, 3, 4])
         store, objects = [], []
         uid = 7
